@@ -59,6 +59,58 @@ def _subst_attrs(t, env):
     return tuple(_subst_attrs(x, env) if isinstance(x, tuple) else x for x in t)
 
 
+def _first_ifexp(e):
+    """The first conditional expression of `e` that is evaluated unconditionally (not inside a lambda / comprehension / the
+    second operand of and/or / a branch of another conditional)."""
+    if isinstance(e, ast.IfExp):
+        return e
+    if isinstance(e, (ast.Lambda, ast.ListComp, ast.SetComp, ast.DictComp, ast.GeneratorExp)):
+        return None
+    if isinstance(e, ast.BoolOp):
+        return _first_ifexp(e.values[0])
+    for c in ast.iter_child_nodes(e):
+        if isinstance(c, ast.expr) or isinstance(c, ast.keyword):
+            r = _first_ifexp(c.value if isinstance(c, ast.keyword) else c)
+            if r is not None:
+                return r
+    return None
+
+
+def _replace_node(root, old, new):
+    """Copy of expression `root` with the sub-expression `old` (identity) replaced by a copy of `new`."""
+    from .model import clone
+    if root is old:
+        return new
+    c = clone(root)
+
+    def twin_of(a, b):
+        # the copy has the same shape: walk both in step to find old's counterpart
+        if a is old:
+            return b
+        for (_fa, va), (_fb, vb) in zip(ast.iter_fields(a), ast.iter_fields(b)):
+            if isinstance(va, ast.AST):
+                r = twin_of(va, vb)
+                if r is not None:
+                    return r
+            elif isinstance(va, list):
+                for x, y in zip(va, vb):
+                    if isinstance(x, ast.AST):
+                        r = twin_of(x, y)
+                        if r is not None:
+                            return r
+        return None
+    twin = twin_of(root, c)
+    if twin is None:
+        return root
+
+    class R(ast.NodeTransformer):
+        def visit(self, n):
+            if n is twin:
+                return clone(new)
+            return super().visit(n)
+    return ast.fix_missing_locations(R().visit(c))
+
+
 def summarize(fi, max_paths=400, unroll=1, follow_exc=False):
     cfg = cfg_of(fi.node)
     F = Facts.__new__(Facts)  # only for _killed
@@ -82,18 +134,21 @@ def summarize(fi, max_paths=400, unroll=1, follow_exc=False):
             return
         node = cfg.nodes[nid]
         st0 = node.stmt
-        if override is None and node.kind in ("stmt", "return") and isinstance(st0, (ast.Assign, ast.AnnAssign, ast.Return)) and \
-                isinstance(getattr(st0, "value", None), ast.IfExp) and node.ast is st0:
-            # a conditional expression is a branch: one path per outcome
-            ghosts = tuple(p for p in params if p not in rebound)
-            for outcome, branch in ((True, st0.value.body), (False, st0.value.orelse)):
-                nps = _fork(ps)
-                r = refine_bool(st0.value.test, outcome, nps.facts, atom_for(ghosts), join)
-                if r is None:
-                    continue
-                nps.facts = r
-                walk(nid, nps, visits, rebound, override=branch)
-            return
+        if node.kind in ("stmt", "return") and isinstance(st0, (ast.Assign, ast.AnnAssign, ast.Return)) and \
+                getattr(st0, "value", None) is not None and node.ast is st0:
+            # a conditional expression (the value itself, or the first one evaluated inside it) is a branch: one path per outcome
+            cur = override if override is not None else st0.value
+            ife = _first_ifexp(cur)
+            if ife is not None:
+                ghosts = tuple(p for p in params if p not in rebound)
+                for outcome, branch in ((True, ife.body), (False, ife.orelse)):
+                    nps = _fork(ps)
+                    r = refine_bool(ife.test, outcome, nps.facts, atom_for(ghosts), join)
+                    if r is None:
+                        continue
+                    nps.facts = r
+                    walk(nid, nps, visits, rebound, override=_replace_node(cur, ife, branch))
+                return
         if nid == cfg.exit:
             out.append(ps)
             return
